@@ -101,6 +101,8 @@ def main(argv):
     if not ok_assert:
         c.broken.append("assertion-flavour build failed: " + blog[-500:])
     c.proofs()
+    if not quick:
+        coqchk(c)
     drv, dlog = build_driver("C08")
     tool = repo_bin("b64filter")
     tool_assert = repo_bin("b64filter", "assert")
